@@ -31,6 +31,58 @@ type C01Round struct {
 type C01Spec struct {
 	Item   ItemSpec   `json:"item"`
 	Rounds []C01Round `json:"rounds,omitempty"`
+	// how the outermost cell comes to be: 0 NewCell(item); the others store the
+	// item THROUGH a table and take the cell the table hands out:
+	// 1 AddRowItems("f", item) + CellAt(1,2); 2 AddHeaders(item) + &Headers()[0];
+	// 3 NewRow().Add(NewCell(item)), AddRow + CellAt(1,1); 4 AppendNewRow().Add(NewCell(item)) + &row.Cells()[0];
+	// 5 AddHeaders("h", item), AddRowItems(item, "x") + &AllRows()[0].Cells()[0]
+	Via int `json:"via,omitempty"`
+}
+
+const c01ViaN = 6
+
+var c01ViaGo = []string{
+	"c := tabular.NewCell(ITEM)",
+	"t := tabular.New(); t.AddRowItems(\"f\", ITEM); c, _ := t.CellAt(tabular.CellLocation{Row: 1, Column: 2})",
+	"t := tabular.New(); t.AddHeaders(ITEM); c := &t.Headers()[0]",
+	"t := tabular.New(); t.AddRow(tabular.NewRow().Add(tabular.NewCell(ITEM))); c, _ := t.CellAt(tabular.CellLocation{Row: 1, Column: 1})",
+	"t := tabular.New(); r := t.AppendNewRow(); r.Add(tabular.NewCell(ITEM)); c := &r.Cells()[0]",
+	"t := tabular.New(); t.AddHeaders(\"h\", ITEM); t.AddRowItems(ITEM, \"x\"); c := &t.AllRows()[0].Cells()[0]",
+}
+
+// cellVia stores item as the spec says and returns the cell to observe
+func cellVia(via int, item interface{}) *tabular.Cell {
+	if via == 0 {
+		c := tabular.NewCell(item)
+		return &c
+	}
+	t := tabular.New()
+	must := func(c *tabular.Cell, err error) *tabular.Cell {
+		if err != nil {
+			panic("CellAt: " + err.Error())
+		}
+		return c
+	}
+	switch via {
+	case 1:
+		t.AddRowItems("f", item)
+		return must(t.CellAt(tabular.CellLocation{Row: 1, Column: 2}))
+	case 2:
+		t.AddHeaders(item)
+		return &t.Headers()[0]
+	case 3:
+		t.AddRow(tabular.NewRow().Add(tabular.NewCell(item)))
+		return must(t.CellAt(tabular.CellLocation{Row: 1, Column: 1}))
+	case 4:
+		r := t.AppendNewRow()
+		r.Add(tabular.NewCell(item))
+		return &r.Cells()[0]
+	case 5:
+		t.AddHeaders("h", item)
+		t.AddRowItems(item, "x")
+		return &t.AllRows()[0].Cells()[0]
+	}
+	panic(fmt.Sprintf("harness: unknown via %d", via))
 }
 
 // ---------------------------------------------------------------- descriptors
@@ -268,7 +320,7 @@ func c01Run(sp C01Spec) (coq string, desc C01Desc, texts []string, lv []*c01Leve
 		l0.objVal = func() interface{} { return baseVal }
 	}
 	lv = append(lv, l0)
-	build := func(l *c01Level) {
+	build := func(l *c01Level, via int) {
 		defer func() {
 			if r := recover(); r != nil {
 				l.newObs = C01Obs{Panic: fmt.Sprint(r)}
@@ -277,12 +329,17 @@ func c01Run(sp C01Spec) (coq string, desc C01Desc, texts []string, lv []*c01Leve
 				l.cell = &c
 			}
 		}()
-		c := tabular.NewCell(l.stored)
-		l.cell = &c
+		l.cell = cellVia(via, l.stored)
+	}
+	viaFor := func(outermost bool) int {
+		if outermost {
+			return sp.Via
+		}
+		return 0
 	}
 	var d0 *descJSON
 	l0.env0, d0 = envCoq(l0.objID, baseVal, &texts)
-	build(l0)
+	build(l0, viaFor(len(wraps) == 0))
 	descL := []c01LevelDesc{{Level: 0, Item: base.K, Object: d0}}
 	// wrappers, innermost first
 	for i := len(wraps) - 1; i >= 0; i-- {
@@ -305,7 +362,7 @@ func c01Run(sp C01Spec) (coq string, desc C01Desc, texts []string, lv []*c01Leve
 			l.objVal = func() interface{} { return p }
 			l.env0, dj = envCoq(l.objID, p, &texts)
 		}
-		build(l)
+		build(l, viaFor(i == 0))
 		lv = append(lv, l)
 		descL = append(descL, c01LevelDesc{Level: k, Item: wraps[i], Object: dj})
 	}
@@ -378,14 +435,14 @@ func c01Run(sp C01Spec) (coq string, desc C01Desc, texts []string, lv []*c01Leve
 			}
 		}
 	}
-	desc = C01Desc{Sig: c01Sig(base), Levels: descL, GoCode: c01GoSnippet(wraps, base)}
+	desc = C01Desc{Sig: c01Sig(base), Levels: descL, GoCode: c01GoSnippet(wraps, base, sp.Via)}
 	return cqPair(cqList(ws), cqList(lcs)), desc, texts, lv
 }
 
 // c01GoSnippet: a Go expression that builds the outermost cell (only for item
 // kinds that have a literal; objects are the generated types of
 // harness/objtypes_gen.go and are described under "object")
-func c01GoSnippet(wraps []string, base ItemSpec) string {
+func c01GoSnippet(wraps []string, base ItemSpec, via int) string {
 	var e string
 	switch base.K {
 	case "nil":
@@ -404,15 +461,16 @@ func c01GoSnippet(wraps []string, base ItemSpec) string {
 	default:
 		return ""
 	}
-	e = "tabular.NewCell(" + e + ")"
 	for i := len(wraps) - 1; i >= 0; i-- {
+		e = "tabular.NewCell(" + e + ")"
 		if wraps[i] == "pcell" {
-			e = "tabular.NewCell(func() *tabular.Cell { c := " + e + "; return &c }())"
-		} else {
-			e = "tabular.NewCell(" + e + ")"
+			e = "func() *tabular.Cell { c := " + e + "; return &c }()"
 		}
 	}
-	return "c := " + e + "; c.String(), c.Empty(), c.Item()"
+	if via < 0 || via >= len(c01ViaGo) {
+		return ""
+	}
+	return strings.Replace(c01ViaGo[via], "ITEM", e, -1) + "; c.String(), c.Empty(), c.Item()"
 }
 
 func c01Sig(base ItemSpec) string {
@@ -489,7 +547,10 @@ func c01RandBase(r *RNG) ItemSpec {
 
 func c01Tags(sp C01Spec) []string {
 	wraps, base := sp.Item.chain()
-	tags := []string{"base=" + base.K, fmt.Sprintf("depth=%d", len(wraps)), fmt.Sprintf("rounds=%d", len(sp.Rounds))}
+	tags := []string{"base=" + base.K, fmt.Sprintf("depth=%d", len(wraps)), fmt.Sprintf("rounds=%d", len(sp.Rounds)), fmt.Sprintf("via=%d", sp.Via)}
+	if sp.Via != 0 && len(wraps) > 0 && wraps[0] == "cell" {
+		tags = append(tags, "cell-value-stored-through-table")
+	}
 	for _, w := range wraps {
 		tags = append(tags, "wrap="+w)
 	}
@@ -521,6 +582,9 @@ func c01Tags(sp C01Spec) []string {
 func c01Size(sp C01Spec) int {
 	wraps, base := sp.Item.chain()
 	n := 20*len(wraps) + 10*len(sp.Rounds) + len(base.B) + len(base.S) + len(base.G) + len(base.E)
+	if sp.Via != 0 {
+		n += 2
+	}
 	for _, w := range wraps {
 		if w == "pcell" {
 			n += 2
@@ -548,7 +612,13 @@ func c01Shrink(sp C01Spec) []C01Spec {
 	var out []C01Spec
 	wraps, base := sp.Item.chain()
 	with := func(w []string, b ItemSpec, rounds []C01Round) {
-		out = append(out, C01Spec{Item: wrapItem(w, b), Rounds: rounds})
+		out = append(out, C01Spec{Item: wrapItem(w, b), Rounds: rounds, Via: sp.Via})
+	}
+	if sp.Via != 0 {
+		out = append(out, C01Spec{Item: sp.Item, Rounds: sp.Rounds})
+		if sp.Via != 1 {
+			out = append(out, C01Spec{Item: sp.Item, Rounds: sp.Rounds, Via: 1})
+		}
 	}
 	if len(sp.Rounds) > 0 {
 		with(wraps, base, nil)
@@ -617,7 +687,8 @@ func init() {
 			"32 generated pointer types = every subset of {String, GoString, Error} x {Height, TerminalCellWidth} with the selected method returning each text class (the others return something else), " +
 			"int, bool, float, slice, map, struct, value-receiver Stringer, string-kind error, chan; each also nested in Cell and *Cell up to depth 3; " +
 			"0-2 mutation rounds (object fields / slice element / map value changed, then every level observed, then Update bottom-up or top-down, then observed); " +
-			"observed per level and phase: String, Empty, Item identity, Height, TerminalCellWidth; a case is non-trivial when the base item is not nil; distinct = distinct Coq case term",
+			"the outermost cell is made by NewCell or the item is stored THROUGH a table (AddRowItems, AddHeaders, NewRow+Add+AddRow, AppendNewRow+Add, header and body together) and the cell the table hands out (CellAt, Headers(), Row.Cells()) is the one observed and Updated, with the same expectations; " +
+			"observed per level and phase: String, Empty, Item identity (type and value of what Item() hands back), Height, TerminalCellWidth; a case is non-trivial when the base item is not nil; distinct = distinct Coq case term",
 		Exhaustive: "all 32 method-set combinations x 8 text classes (with one mutation round), the 25 listed runes, every non-object kind, and every wrapper sequence over {Cell, *Cell} up to depth 2 around 6 representative bases",
 		Gen: func(r *RNG, tier string) []json.RawMessage {
 			var out []json.RawMessage
@@ -627,13 +698,13 @@ func init() {
 			for mask := 0; mask < 32; mask++ {
 				for t := range c01Texts {
 					nb := c01Obj(mask, t+3, i+4)
-					add(C01Spec{Item: c01Obj(mask, t, i), Rounds: []C01Round{{S: nb.S, G: nb.G, E: nb.E, H: nb.H, W: nb.W, TopDown: i%2 == 0}}})
+					add(C01Spec{Item: c01Obj(mask, t, i), Rounds: []C01Round{{S: nb.S, G: nb.G, E: nb.E, H: nb.H, W: nb.W, TopDown: i%2 == 0}}, Via: (i / 2) % c01ViaN})
 					i++
 				}
 			}
 			for _, rn := range c01Runes {
 				add(C01Spec{Item: ItemSpec{K: "rune", R: rn}})
-				add(C01Spec{Item: ItemSpec{K: "rune", R: rn}, Rounds: []C01Round{{}}})
+				add(C01Spec{Item: ItemSpec{K: "rune", R: rn}, Rounds: []C01Round{{}}, Via: 1 + int(uint32(rn))%(c01ViaN-1)})
 			}
 			for _, t := range c01Texts {
 				add(C01Spec{Item: Str(t)})
@@ -644,7 +715,9 @@ func init() {
 				{K: "slice", I: 3}, {K: "map", I: 4, B: []byte("k")}, {K: "structx", I: 5, B: []byte("b")}, {K: "chan"}}
 			for _, o := range others {
 				add(C01Spec{Item: o})
-				add(C01Spec{Item: o, Rounds: []C01Round{{H: 9}, {H: 10, TopDown: true}}})
+				for via := 1; via < c01ViaN; via++ {
+					add(C01Spec{Item: o, Rounds: []C01Round{{H: 9}, {H: 10, TopDown: true}}, Via: via})
+				}
 			}
 			// nesting
 			reps := []ItemSpec{{K: "nil"}, Str(""), Str("a\nb"), {K: "rune", R: 'x'}, c01Obj(1, 1, 0), c01Obj(31, 2, 5), c01Obj(0, 0, 0), c01Obj(7, 0, 8)}
@@ -654,6 +727,10 @@ func init() {
 					add(C01Spec{Item: wrapItem(w, b)})
 					add(C01Spec{Item: wrapItem(w, b), Rounds: []C01Round{c01RandRound(r)}})
 					add(C01Spec{Item: wrapItem(w, b), Rounds: []C01Round{{S: []byte(""), G: []byte("g"), E: []byte("e"), TopDown: true}, c01RandRound(r)}})
+					// the same item stored through every table entry point
+					for via := 1; via < c01ViaN; via++ {
+						add(C01Spec{Item: wrapItem(w, b), Rounds: []C01Round{{S: []byte("changed"), G: []byte("G2"), E: []byte("E2"), H: 2, W: 4, TopDown: via%2 == 0}}, Via: via})
+					}
 				}
 			}
 			n := 400
@@ -670,7 +747,11 @@ func init() {
 				for d := r.Intn(3); d > 0; d-- {
 					rounds = append(rounds, c01RandRound(r))
 				}
-				add(C01Spec{Item: wrapItem(w, b), Rounds: rounds})
+				via := 0
+				if r.Pct(50) {
+					via = 1 + r.Intn(c01ViaN-1)
+				}
+				add(C01Spec{Item: wrapItem(w, b), Rounds: rounds, Via: via})
 			}
 			return out
 		},
@@ -686,7 +767,7 @@ func init() {
 				Desc:       desc,
 				Size:       c01Size(sp),
 				Tags:       c01Tags(sp),
-				Key:        coq,
+				Key:        fmt.Sprintf("%d:%s", sp.Via, coq),
 				Nontrivial: base.K != "nil",
 			}
 		},
